@@ -414,10 +414,13 @@ def parse_query_string(query_string, keep_blank_values=True, encoding='utf-8'):
         # Server-side image map. Map the coords to 'x' and 'y'
         # (like CGI::Request does).
         pm = query_string.split(',')
-        pm = {'x': int(pm[0]), 'y': int(pm[1])}
-    else:
-        pm = _parse_qs(query_string, keep_blank_values, encoding=encoding)
-    return pm
+        try:
+            return {'x': int(pm[0]), 'y': int(pm[1])}
+        except ValueError:
+            # More digits than int() converts (sys.get_int_max_str_digits):
+            # not coordinates; read it as an ordinary query string.
+            pass
+    return _parse_qs(query_string, keep_blank_values, encoding=encoding)
 
 
 class CaseInsensitiveDict(jaraco.collections.KeyTransformingDict):
